@@ -129,20 +129,23 @@ def enum_shape(name, trait, attr, default_placeholder, variants, shared, shared_
 
 def shapes(tier):
     out = []
-    mixed = [V("Unit", "unit"), V("Single", "tuple", 1), V("Multi", "tuple", 2, own="{_0}+{_1:x}"),
-             V("Named", "named", 1), V("NamedOwn", "named", 2, own="{a}/{}", own_args="b"), V("UnitOwn", "unit", own="unit!")]
+    # two 3-variant enums instead of one 6-variant enum: the cost of a harness grows much faster than linearly in the variants
+    mixed_a = [V("Unit", "unit"), V("Single", "tuple", 1), V("Multi", "tuple", 2, own="{_0}+{_1:x}")]
+    mixed_b = [V("Named", "named", 1), V("NamedOwn", "named", 2, own="{a}/{}", own_args="b"), V("UnitOwn", "unit", own="unit!")]
     tuples = [V("One", "tuple", 1), V("Two", "tuple", 2, own="{_1:?}{_0}"), V("OneOwn", "tuple", 1, own="<{}>", own_args="_0")]
     wrap_lits = [("variant_only", "{_variant}", ""), ("brackets", "<{_variant}>", ""), ("twice", "{_variant}-{_variant}", ""),
                  ("positional_arg", "{}!", "_variant"), ("alias_arg", "{v}?", "v = _variant"), ("escaped", "{{{_variant}}}", "")]
     for k, (n, lit, args) in enumerate(wrap_lits):
-        out.append(enum_shape("wrap_%s" % n, "Display", "display", "{}", mixed, lit, args, True, quick=k in (0, 1, 2, 3)))
+        out.append(enum_shape("wrap_%s_a" % n, "Display", "display", "{}", mixed_a, lit, args, True, quick=k in (0, 1, 2, 3)))
+        out.append(enum_shape("wrap_%s_b" % n, "Display", "display", "{}", mixed_b, lit, args, True, quick=k in (0, 2, 4)))
     out.append(enum_shape("wrap_with_field", "Display", "display", "{}", tuples, "{_variant}: {_0}", "", True))
     out.append(enum_shape("wrap_with_field_arg", "Display", "display", "{}", tuples, "{_variant} / {:?}", "_0", True, quick=False))
     out.append(enum_shape("wrap_rename_all", "Display", "display", "{}",
                           [V("FooBar", "unit", printed_name="foo_bar"), V("Single", "tuple", 1), V("BazQux", "unit", own="own")],
                           "[{_variant}]", "", True, rename_all="snake_case"))
     # not mentioning `_variant`: a default only
-    out.append(enum_shape("default_text", "Display", "display", "{}", mixed, "X", "", False))
+    out.append(enum_shape("default_text_a", "Display", "display", "{}", mixed_a, "X", "", False))
+    out.append(enum_shape("default_text_b", "Display", "display", "{}", mixed_b, "X", "", False))
     out.append(enum_shape("default_with_field", "Display", "display", "{}", tuples, "[{_0}]", "", False))
     out.append(enum_shape("default_with_field_arg", "Display", "display", "{}", tuples, "({:x})", "_0", False, quick=False))
     # other traits: the variant's own text uses the derived trait's placeholder
